@@ -6,9 +6,9 @@ from ..core import Fail
 
 PID = "C15"
 RULE = ("closed polygonal curves (int/Fraction/float) and curved curves (circle arcs, quadratic/cubic pieces, float) x "
-        "multisets of (segment, parameter) pairs: distinct parameters >= 1e-5 apart in the main stream, parameters at / "
-        "within 1e-6 of 0 and 1, repeated split/clean sequences; a malformed stream with repeated and 1e-17-close "
-        "parameters (known finding F15); observables: vertices, orientation, area, segments[i](t) on a grid, == with the "
+        "multisets of (segment, parameter) pairs: parameters k/100, parameters at / within 1e-6 of 0 and 1, repeated and "
+        "nearly equal parameters (0, 1e-17, 1e-12, 5e-7, 1e-5 apart; F15/F15c repaired), repeated split/clean sequences; "
+        "observables: vertices, orientation, area, segments[i](t) on a grid, == with the "
         "original after clean; non-trivial = at least one parameter survives the 1e-6 filter; distinct = SHA-1")
 PROOF_STATUS = ("Props/C15.v: retrace, junctions at the split parameters, no zero-length piece, area / winding number / "
                 "closedness unchanged, clean idempotent and complete, all for straight segments and rational data")
@@ -25,7 +25,13 @@ def _nodes(rng, n, k):
             nodes.append(rng.choice([F(1, 2000000), 1 - F(1, 2000000), F(1, 500000), 1 - F(1, 500000)]))
         else:
             nodes.append(F(rng.randint(1, 99), 100))
-    # keep parameters on one segment distinct and >= 1e-5 apart
+    # repeated and nearly equal parameters (the library merges parameters closer than 1e-6 on one segment)
+    if idx and rng.random() < 0.3:
+        k = rng.randrange(len(idx))
+        if F(1, 100) <= nodes[k] <= F(99, 100):
+            idx.append(idx[k])
+            nodes.append(nodes[k] + rng.choice([F(0), F(1, 10 ** 17), F(1, 2 * 10 ** 6), -F(1, 10 ** 12), F(1, 10 ** 5)]))
+    # exact repetitions are passed once
     seen = set()
     out_i, out_n = [], []
     for i, u in zip(idx, nodes):
@@ -139,7 +145,10 @@ def check(ctx, case):
             fails.append(Fail(kind="O", what="junction point not shared by identity", k=k))
     want = []
     for i, sg in enumerate(jx):
-        us = sorted({F(u) for ii, u in zip(idx, nn) if ii == i and not (abs(F(u)) < F(1, 1000000) or abs(F(u) - 1) < F(1, 1000000))})
+        us = []
+        for u in sorted({F(u) for ii, u in zip(idx, nn) if ii == i and not (abs(F(u)) < F(1, 1000000) or abs(F(u) - 1) < F(1, 1000000))}):
+            if not us or u - us[-1] >= F(1, 1000000):       # parameters within 1e-6 of the previous one are merged
+                us.append(u)
         ts = [F(0)] + us + [F(1)]
         for t0, t1 in zip(ts, ts[1:]):
             want.append([O.bez(sg, t0), O.bez(sg, t1)])
